@@ -22,6 +22,9 @@ import traceback
 
 VERIF = os.path.dirname(os.path.dirname(os.path.abspath(__file__)))
 REPO = os.environ.get("VERIF_REPO", "/repo")
+# Where evidence and replay files go.  Only the self-tests redirect this (they
+# run the checks against scratch copies of the repository).
+OUT = os.environ.get("VERIF_OUT", VERIF)
 PY = sys.executable
 
 MACHINES = {
@@ -335,7 +338,7 @@ def match_known(known, prop, failure, plan):
 # --------------------------------------------------------------------------
 
 def write_replay(prop, seed, i, plan, failure, minimised_from):
-    d = os.path.join(VERIF, "replays")
+    d = os.path.join(OUT, "replays")
     os.makedirs(d, exist_ok=True)
     sigh = hashlib.sha256(signature(failure).encode()).hexdigest()[:6]
     path = os.path.join(
@@ -392,7 +395,7 @@ def replay_fresh(path):
 # --------------------------------------------------------------------------
 
 def write_evidence(prop, doc):
-    d = os.path.join(VERIF, "evidence")
+    d = os.path.join(OUT, "evidence")
     os.makedirs(d, exist_ok=True)
     path = os.path.join(d, f"{prop}.json")
     tmp = path + ".tmp"
